@@ -27,7 +27,7 @@ Plans == {[args |-> [i \in DOMAIN as |-> [flag |-> as[i].flag, model |-> as[i].m
            out |-> o, fault |-> f] :
           as \in {x \in ArgsSets : FaultCount(x) <= 1 /\ x[1].model = "A"},
           o \in (IF Clean THEN {"none", "absent", "old"} ELSE {"none", "absent", "old", "unwritable"}),
-          f \in (IF Clean THEN {"none"} ELSE {"none", "argparse", "merge", "fwgen", "mergearg", "import", "generator"})}
+          f \in (IF Clean THEN {"none"} ELSE {"none", "argparse", "merge", "fwgen", "mergearg", "import", "generator", "encode"})}
 GoodPlans == {p \in Plans : (FaultCount(p.args) = 0 \/ p.fault = "none") /\ (p.out # "unwritable" \/ (p.fault = "none" /\ FaultCount(p.args) = 0))}
 
 Init == \E p \in GoodPlans : InitWith(p) /\ (Emit => PrintT(<<"B", ToJson(p)>>))
